@@ -4,6 +4,6 @@ CONSTANTS
   Known <- NoDev
   DepthLimit = 100
   PreBody <- ThePreBody
-  LogEvents = FALSE
+  LogEvents = TRUE
 INVARIANT GenInv
 CHECK_DEADLOCK FALSE
